@@ -157,7 +157,7 @@ pub fn op(u: &mut Unstructured, mode: u8) -> Op {
             Op::Reserve([0u16, 1, 63, 64, 65, 127, 128, 129, 200, 1000, 4096][below(u, 11)])
         }
     };
-    let others = |u: &mut Unstructured| match below(u, 14) {
+    let others = |u: &mut Unstructured| match below(u, 15) {
         0 => Op::SplitOffKeepLow(u16_(u)),
         1 => Op::SplitOffKeepHigh(u16_(u)),
         2 => Op::CopyRange(u16_(u), u16_(u)),
@@ -175,7 +175,8 @@ pub fn op(u: &mut Unstructured, mode: u8) -> Op {
                 Op::FormatParse(bool_(u))
             }
         }
-        _ => Op::CloneReplace,
+        13 => Op::CloneReplace,
+        _ => Op::CloneFrom { into: bool_(u), other: operand(u) },
     };
     match mode {
         1 => edits(u),
